@@ -26,7 +26,7 @@ class MainSpec(corevc.Spec):
         pm = SV('bool', fresh('prompt_missing', z3.BoolSort()))
         hs = SV('bool', fresh('has_solution_file', z3.BoolSort()))
         args = AObj(argparse.Namespace, {'writeback_input': wb, 'prompt_missing': pm, 'input_file': 'INPUT_FILE', 'year': 2023,
-                                         'forms': ['1040'], 'solution': Opaque(fresh('solpath', OBJ), 'solpath')}, name='args')
+                                         'forms': ['1040', 'nc_d-400'], 'solution': Opaque(fresh('solpath', OBJ), 'solpath')}, name='args')
         it.ghost['events'] = []
         it.ghost['args'] = args
         it.ghost['hs'] = hs
@@ -70,7 +70,7 @@ class MainSpec(corevc.Spec):
             return None
         if k == 'solverobj':
             if attr == 'solve':
-                self.log(it, 'solve')
+                self.log(it, 'solve', args[0] if args else None)
                 if it.run.branch(fresh('solve_raises', z3.BoolSort()), where='solve-raises'):
                     e = self.interrupt_kind('interrupted inside Solver.solve')
                     it.ghost['raised'] = e
